@@ -4,12 +4,12 @@
 patch=$1; shift
 wt=/tmp/ben/eval
 cd $wt && git checkout -q --detach $(git -C /repo rev-parse HEAD) && git checkout -q -- . && git clean -fdq
-if ! git apply "$patch" 2>/tmp/ben/apply.err; then echo "APPLY-FAIL $(basename $(dirname $patch))/$(basename $patch): $(head -1 /tmp/ben/apply.err)"; exit 3; fi
+if ! git apply "$patch" 2>/tmp/ben/apply.err; then echo "$(basename $(dirname $patch)) - APPLY-FAIL $(head -1 /tmp/ben/apply.err)"; exit 3; fi
 for p in "$@"; do
   out=$(XVC_OUT=/root/scratch/benout /verif/bin/xvc check $p --repo $wt --tier quick 2>&1)
   rc=$?
   v=$(echo "$out" | grep -c '^VIOLATION')
   first=$(echo "$out" | grep '^VIOLATION' | head -4 | sed "s/.*replays.//" | tr '\n' ' ')
-  echo "$(basename $(dirname $patch))/$(basename $patch) $p rc=$rc violations=$v $first"
+  echo "$(basename $(dirname $patch)) $p rc=$rc violations=$v $first"
 done
 git checkout -q -- . ; git clean -fdq
